@@ -359,10 +359,14 @@ pub fn run_session(case: &Session, loc: &mut Local) -> Result<(), String> {
             Wait::BestMove => {
                 let expected = gos.iter().filter(|g| g.expects_move).count();
                 if bestmoves(&u) < expected {
-                    // every go ends by itself (depth reached, movetime, or the 4 s default timer)
-                    let deadline = std::time::Instant::now() + wait;
-                    while bestmoves(&u) < expected && std::time::Instant::now() < deadline {
-                        let _ = u.wait_for(Duration::from_millis(200), |l| matches!(l, Line::Out(s) if s.starts_with("bestmove")));
+                    // every go ends by itself (depth reached, movetime, or the 4 s default timer);
+                    // the watchdog counts silence, not total time (see Uci::wait_for)
+                    let mut seen = bestmoves(&u);
+                    while seen < expected {
+                        if u.wait_for(wait, |l| matches!(l, Line::Out(s) if s.starts_with("bestmove"))).is_none() {
+                            break;
+                        }
+                        seen += 1;
                     }
                     if bestmoves(&u) < expected {
                         let g = gos.iter().filter(|g| g.expects_move).nth(bestmoves(&u)).unwrap();
@@ -448,10 +452,127 @@ pub fn run_session(case: &Session, loc: &mut Local) -> Result<(), String> {
     Ok(())
 }
 
+
+// ------------------------------------------------------- isready while a search is running
+
+/// Quiet, legal, non-book positions without a quick mate: a search on them with a movetime
+/// cannot end before the time is up.
+pub const QUIET_POOL: &[&str] = &[
+    "r3k2r/p1ppqpb1/bn2pnp1/3PN3/1p2P3/2N2Q1p/PPPBBPPP/R3K2R w KQkq - 0 1",
+    "8/2p5/3p4/KP5r/1R3p1k/8/4P1P1/8 w - - 0 1",
+    "r4rk1/1pp1qppp/p1np1n2/2b1p1B1/2B1P1b1/P1NP1N2/1PP1QPPP/R4RK1 w - - 0 10",
+    "4k3/p1p1p1p1/8/1P1P1P1P/1p1p1p1p/8/P1P1P1P1/4K3 w - - 0 1",
+    "8/8/8/4k3/8/8/4P3/4K3 w - - 0 1",
+    "r1bq1rk1/pp2bppp/2n1pn2/3p4/3P4/2NBPN2/PP3PPP/R1BQ1RK1 w - - 0 9",
+];
+
+#[derive(Debug, Clone, Serialize, Deserialize)]
+pub struct ReadyCase {
+    pub pool: u8,
+    /// 0 = go movetime ms, 1 = go depth 30 (ended by the default timer), 2 = bare go
+    pub kind: u8,
+    pub movetime: u16,
+    /// how many isready are sent right after the go
+    pub pings: u8,
+    /// then: 0 = nothing, 1 = stop, 2 = quit
+    pub then: u8,
+}
+
+pub struct ReadyDuringSearch;
+
+impl Prop for ReadyDuringSearch {
+    type Case = ReadyCase;
+    fn name(&self) -> &'static str {
+        "isready_during_search"
+    }
+    fn parallelism(&self, ctx: &Ctx) -> usize {
+        ctx.threads.min(6)
+    }
+    fn max_shrink_iters(&self) -> u32 {
+        10
+    }
+    fn strategy(&self, _: &Ctx) -> BoxedStrategy<ReadyCase> {
+        (0u8..(QUIET_POOL.len() as u8), 0u8..3, 1500u16..3000, 1u8..=3, 0u8..3)
+            .prop_map(|(pool, kind, movetime, pings, then)| ReadyCase { pool, kind, movetime, pings, then })
+            .boxed()
+    }
+    fn test(&self, _: &Ctx, case: &ReadyCase, loc: &mut Local) -> Result<(), String> {
+        let wait = Duration::from_secs(60);
+        let fen = QUIET_POOL[case.pool as usize % QUIET_POOL.len()];
+        let mut u = Uci::spawn()?;
+        u.send(&format!("position fen {}", fen));
+        u.send("isready");
+        if u.wait_out(wait, "readyok").is_none() {
+            return Err(format!("no readyok before the search\n{}", u.transcript()));
+        }
+        let go = match case.kind % 3 {
+            0 => format!("go movetime {}", case.movetime),
+            1 => "go depth 30".to_string(),
+            _ => "go".to_string(),
+        };
+        // the pings are sent a little into the search (its time limit is at least 1.5 s away)
+        let mark = u.log.len();
+        u.send(&go);
+        u.drain(Duration::from_millis(50 + (case.movetime as u64 % 600)));
+        let ping_sent = std::time::Instant::now();
+        for _ in 0..case.pings {
+            u.send("isready");
+        }
+        match case.then % 3 {
+            1 => {
+                u.send("stop");
+            }
+            2 => {
+                u.send("quit");
+            }
+            _ => {}
+        }
+        if u.wait_out_prefix(wait, "bestmove").is_none() && !u.log[mark..].iter().any(|l| matches!(l, Line::Out(s) if s.starts_with("bestmove"))) {
+            return Err(format!("'{}' on '{}' was not answered with a bestmove\n{}", go, fen, u.transcript()));
+        }
+        u.drain(Duration::from_millis(300));
+        loc.eval();
+        let out: Vec<(usize, &String)> = u.log.iter().enumerate().skip(mark).filter_map(|(i, l)| if let Line::Out(s) = l { Some((i, s)) } else { None }).collect();
+        let best = out.iter().find(|(_, l)| l.starts_with("bestmove")).map(|x| x.0).unwrap_or(usize::MAX);
+        let readies: Vec<usize> = out.iter().filter(|(_, l)| *l == "readyok").map(|x| x.0).collect();
+        if readies.len() != case.pings as usize {
+            return Err(format!("{} isready sent while '{}' was running, {} readyok received\n{}", case.pings, go, readies.len(), u.transcript()));
+        }
+        // answered while the search runs: a readyok that arrives after the bestmove of that search
+        // is late - unless the bestmove was already on its way when the ping was written (it then
+        // arrives within milliseconds of the ping; half a second of grace)
+        if best != usize::MAX {
+            let best_at = u.stamps[best];
+            if let Some(late) = readies.iter().find(|i| **i > best) {
+                if best_at.duration_since(ping_sent) > Duration::from_millis(500) {
+                    return Err(format!(
+                        "isready sent while '{}' was running on '{}' was answered only after that search's bestmove, which arrived {:?} after the isready had been written (readyok is log entry {}, bestmove {}): isready must be answered while a search runs\n{}",
+                        go, fen, best_at.duration_since(ping_sent), late, best, u.transcript()
+                    ));
+                }
+                loc.class("ping_raced_with_end_of_search");
+            }
+        }
+        loc.nontrivial(&format!("{:?}", case));
+        loc.class(match case.then % 3 { 0 => "search_ends_by_itself", 1 => "then_stop", _ => "then_quit" });
+        loc.sample(|| json!({"fen": fen, "go": go, "pings": case.pings, "readyok_lines": readies, "bestmove_line": best}));
+        if case.then % 3 != 2 {
+            u.send("quit");
+        }
+        match u.wait_exit(wait) {
+            Some(Some(0)) => Ok(()),
+            other => Err(format!("quit ended the process with {:?}\n{}", other, u.transcript())),
+        }
+    }
+}
+
 pub fn plan(ctx: &Ctx) -> Plan {
     let t = ctx.tier;
     Plan {
-        props: vec![(Box::new(Sessions { max_steps: 14 }), t.pick(160, 6_000))],
+        props: vec![
+            (Box::new(Sessions { max_steps: 14 }), t.pick(160, 6_000)),
+            (Box::new(ReadyDuringSearch), t.pick(24, 600)),
+        ],
         rule: "generated sessions of 3-14 commands over {uci, isready, ucinewgame, position startpos|fen [legal moves], go \
                depth 1-4, go movetime 0-299, bare go, stop, .state} plus per-command driver timing {send next at once, wait \
                for first info, wait for bestmove, sleep 1-149 ms} and optional isready barriers, ended by quit or end of \
@@ -462,8 +583,11 @@ pub fn plan(ctx: &Ctx) -> Plan {
                search runs; the i-th bestmove line is a legal move (coordinates + lower-case promotion letter) of the \
                position current at the i-th go that had a legal move, exactly one each, none without a go; the bestmove of \
                an earlier go precedes the readyok of a barrier placed after the next stop/go/position/ucinewgame; .state \
-               prints the FEN chess rules define; quit / end of input -> exit status 0. Waits of 60 s are watchdogs \
-               (typical latency < 1 s). Non-trivial = distinct sessions with a search-answered go interrupted by a later \
+               prints the FEN chess rules define; quit / end of input -> exit status 0. Waits of 60 s are watchdogs on \
+               silence (typical latency < 1 s; a process that keeps printing is never timed out). Second part (isready_during_search): on quiet non-book positions a go with at least 1.5 s to \
+               run (movetime, depth 30 or bare go ended by the 4 s default) is followed back to back by 1-3 isready and \
+               then nothing / stop / quit: every readyok must be printed before that search's bestmove. \
+               Non-trivial = distinct sessions with a search-answered go interrupted by a later \
                command, or >= 2 position commands after a go (memory reuse), or a book placement reached without rights.",
         assumptions: &[
             "command timing relative to search progress is sampled by the driver actions, not controlled at instruction level; the oracle does not depend on which side of a race a command landed",
